@@ -58,4 +58,13 @@ def gapRunsFrom (i : Nat) (cur : Option (Nat × Nat)) : Gapped → List (Nat × 
 
 def gapRuns (g : Gapped) : List (Nat × Nat) := gapRunsFrom 0 none g
 
+/-- number of gap columns standing immediately before residue `k` (for `k = seqLen g`: the trailing
+gap columns), by scanning -/
+def gapsBefore : Gapped → Nat → Nat
+  | [], _ => 0
+  | none :: r, 0 => gapsBefore r 0 + 1
+  | none :: r, k + 1 => gapsBefore r (k + 1)
+  | some _ :: _, 0 => 0
+  | some _ :: r, k + 1 => gapsBefore r k
+
 end CogentModel.Gapped
